@@ -609,11 +609,22 @@ func emptyRangeSkip(p *load.Program, fn *ssa.Function, rg intarith.Region, asc b
 	if startV == nil || endV == nil {
 		return false
 	}
-	// the start fails the condition: asc: start >= end; desc: start <= end
-	if asc && !rg.ValueLeq(endV, startV) {
+	// the start fails the condition: asc: start >= end; desc: start <= end — either as a relation
+	// between the two values, or through a variable that holds their exact difference (a buffer
+	// helper that tests `end-start <= 0` and hands back no buffer)
+	diffEmpty := func(hiV, loV ssa.Value) bool {
+		fh, ok1 := rg.FormOf(hiV)
+		fl, ok2 := rg.FormOf(loV)
+		if !ok1 || !ok2 {
+			return false
+		}
+		_, hi, has := rg.Bounds(fh.Sub(fl))
+		return has && hi != nil && hi.Sign() <= 0
+	}
+	if asc && !rg.ValueLeq(endV, startV) && !diffEmpty(endV, startV) {
 		return false
 	}
-	if !asc && !rg.ValueLeq(startV, endV) {
+	if !asc && !rg.ValueLeq(startV, endV) && !diffEmpty(startV, endV) {
 		return false
 	}
 	for _, bd := range []struct {
